@@ -11,7 +11,8 @@ theorem retry_succeeds_once_a_worker_parks {s : State} {d j w : Nat} {rest : Lis
     (hr : s.disp d = .refused j) (hw : s.waiting = w :: rest) :
     ∃ s', run? s [.retry d, .trySend d] = some s' ∧ s'.disp d = .idle ∧ s'.wrk w = .handed j
       ∧ s'.waiting = rest := by
-  refine ⟨_, ?_, ?_⟩
+  apply Exists.intro
+  refine ⟨?_, ?_⟩
   · simp [run?, step?, doRetry, doTrySend, hd, hr, hw]
     rfl
   · simp
@@ -19,7 +20,8 @@ theorem retry_succeeds_once_a_worker_parks {s : State} {d j w : Nat} {rest : Lis
 /-- … and that worker then runs it -/
 theorem handed_job_starts {s : State} {w j : Nat} (hw : w < s.nw) (hh : s.wrk w = .handed j) :
     ∃ s', step? s (.wake w) = some s' ∧ s'.wrk w = .running j ∧ s'.ran = s.ran ++ [(j, w)] := by
-  refine ⟨_, ?_, ?_⟩
+  apply Exists.intro
+  refine ⟨?_, ?_⟩
   · simp [step?, doWake, hw, hh]
     rfl
   · simp
@@ -28,7 +30,8 @@ theorem handed_job_starts {s : State} {w j : Nat} (hw : w < s.nw) (hh : s.wrk w 
 theorem blocked_sender_served {s : State} {w d j : Nat} {rest : List (Nat × Nat)} (hw : w < s.nw)
     (hr : s.wrk w = .ready) (hq : s.sendq = (d, j) :: rest) :
     ∃ s', step? s (.recv w) = some s' ∧ s'.wrk w = .running j ∧ s'.disp d = .idle ∧ s'.sendq = rest := by
-  refine ⟨_, ?_, ?_⟩
+  apply Exists.intro
+  refine ⟨?_, ?_⟩
   · simp [step?, doRecv, hw, hr, hq]
     rfl
   · simp
@@ -55,7 +58,8 @@ theorem respawn_after_retirement {limit nd : Nat} {s : State} (h : Reach limit n
   have hl' : ¬ s.limit = 0 := by omega
   have hl'' : ¬ s.limit ≤ 0 := by omega
   have hlive0 : cnt s.wrk WState.alive s.nw = 0 := cnt_zero_of _ _ _ (fun i hi => by rw [hall i hi]; rfl)
-  refine ⟨_, ?_, ?_⟩
+  apply Exists.intro
+  refine ⟨?_, ?_⟩
   · simp [run?, step?, doSubmit, doTrySend, doLoad, doSpawn, doSend, doCount, doRecv, hd, hidle, hwait, hc, hl',
       hl'', hres, hq, upd]
     rfl
